@@ -243,8 +243,53 @@ def excess_unit(v, res):
         res.dims['values at withdrawn field numbers'] += 1
 
 
+def xver_unit(va, vb, res):
+    """what parsing a message of version va leaves behind must not reach a message of version vb: for every segment that
+    has more fields in vb than in va, a va message carrying fields beyond va's count is parsed first, then the vb message
+    with values in the first field va lacks and in the last field of vb is judged like any other text"""
+    from hl7apy.parser import parse_message
+    name = 'ADT_A01'
+    la, lb = common.libs()[va], common.libs()[vb]
+    for seg in tables.segment_names(vb):
+        if seg == 'MSH' or seg not in la.SEGMENTS or tables.segment_anomaly(va, seg) or tables.segment_anomaly(vb, seg):
+            continue
+        if tables.has_gap(vb, seg) or tables.row_anomalies(vb, seg):
+            continue
+        na = max([i for i, fr in tables.field_rows(va, seg) if i] or [0])
+        nb = max([i for i, fr in tables.field_rows(vb, seg) if i] or [0])
+        if not (0 < na < nb):
+            continue
+        first = [st.msh_line(va, name), 'EVN', 'PID|1', 'PV1|1']
+        fa = [''] * (na + 1)          # exactly one field beyond the count of va
+        fa[na] = 'x'
+        line_a = seg + '|' + '|'.join(fa)
+        try:
+            parse_message('\r'.join(first + [line_a]), validation_level=TOLERANT).to_er7()
+        except Exception:
+            pass
+        fb = [''] * nb
+        fb[na] = 'p'
+        fb[nb - 1] = 'q'
+        if na >= 1:
+            fb[0] = '1'
+        lines = [st.msh_line(vb, name), 'EVN', 'PID|1', 'PV1|1']
+        line_b = seg + '|' + '|'.join(fb)
+        if seg in ('EVN', 'PID', 'PV1'):
+            lines[['EVN', 'PID', 'PV1'].index(seg) + 1] = line_b
+        else:
+            lines.append(line_b)
+        res.states += 1
+        res.enumerated += 1
+        res.nontrivial += 1
+        judge(res, vb, name, '\r'.join(lines), 'after-v%s:%s' % (va, seg), 5)
+    res.dims['cross-version pairs'] += 1
+
+
 def units(tier):
     us = []
+    for a, b in zip(VERSIONS, VERSIONS[1:]):
+        us.append(('xver', a, b))
+        us.append(('xver', b, a))
     for v in VERSIONS:
         names = tables.concrete_message_names(v)
         for i in range(0, len(names), 8):
@@ -260,6 +305,8 @@ def run_unit(unit, tier):
     res = Result()
     if unit[0] == 'struct':
         struct_unit(unit[1], unit[2], tier, res)
+    elif unit[0] == 'xver':
+        xver_unit(unit[1], unit[2], res)
     elif unit[0] == 'words':
         words_unit(unit[1], unit[2], unit[3], res)
     else:
